@@ -120,8 +120,10 @@ func transform(source string, mappings map[string]string, expandMode bool) strin
 				}
 			}
 		} else {
-			// Compacting: look for keywords to convert to symbols
-			if unicode.IsLetter(rune(ch)) {
+			// Compacting: look for keywords to convert to symbols. A word begins
+			// where the lexer begins an identifier (a letter or '_'), so that
+			// `_use` is one word and not `_` followed by the keyword `use`.
+			if unicode.IsLetter(rune(ch)) || ch == '_' {
 				// Read the full identifier
 				start := i
 				for i < n && (unicode.IsLetter(rune(source[i])) || unicode.IsDigit(rune(source[i])) || source[i] == '_') {
